@@ -74,6 +74,10 @@ CHECKS = {
    text="For hundreds (thousands in thorough) of connections, 1-128 at a time, each direction's receiver must get exactly the sender's stream (first differing offset reported), see end-of-stream only after the last byte, and the opposite direction must keep flowing after a half-close; on an abrupt close by one side the other must see a prefix then EOF/reset, never foreign bytes (cross-talk through pooled buffers shows as a mismatch).",
    note="Trusted: the streaming PRNG generator (cut-independent), the 8-byte connection id relayed first. Idle timeouts are left at their default (10 min).",
    ref="DESIGN.md section 4 C05"),
+ "C06": dict(level="exploration", technique="exact-count oracle for concurrent round-robin selections and recorded-sample oracle for random / least-connection through the verif re-exports (plain and -race children); end-to-end membership / usable-set oracle in settled windows with backend-scripted health probes, removal-closes-connections monitor",
+   text="Round robin: n*k selections per goroutine from 1/4/32 goroutines over 1-17 unchanged hosts give every host exactly its share from any start index; random/least-connection always pick a candidate, least-connection never the strictly busier of its two recorded samples, empty list gives nil. End to end under all three policies: in windows where every member backend has served >= 5 probes since the last scripted change, every connection lands on a healthy member of the preferred tier (backups only when no main is healthy), is closed when no host is usable, round robin is exact over the usable hosts, and connections held to a host are closed within 4 s of its removal.",
+   note="Settled-window semantics only; bursts racing a change are not judged. Trusted: backends identify themselves and serve the atcp probes themselves.",
+   ref="DESIGN.md section 4 C06"),
 }
 NOT_BUILT = "check not built yet in this session (design in DESIGN.md section 4)"
 
